@@ -41,14 +41,14 @@ static std::vector<CheckSpec> make_specs() {
     add("C11", "exploration", {{"nav", 400000}}, {{"nav", 6000000}},
         "nav engine with get_raw / parser_to_writer at any position after any navigation history; span, standalone validity (real verify on a fresh parser), bytes appended to an exact-size writer, cursor afterwards; on scalars both must return false and change nothing. non-trivial = at least one container raw-extracted/skipped/left early; attributed to C11 only if the minimised history still contains raw/towriter",
         {"reference cursor correct", "sampling"});
-    add("C01", "exploration", {{"sloppy", 500000}}, {{"sloppy", 8000000}},
-        "each run: delivered bytes = valid / truncated / corrupted / random document in an exact-size heap block, parser struct and state array of exactly max_depth entries pre-filled with PRNG garbage, 1..60 calls over the whole public parser API with return values ignored (lookups only while structurally inside an object). oracle: no ASan/UBSan report, every returned span inside the delivered block, buffer unchanged. non-trivial = at least 3 calls returned true or an error class other than init rejection was reached",
+    add("C01", "exploration", {{"sloppy", 500000}, {"traverse", 100000}, {"tostring", 1500}}, {{"sloppy", 8000000}, {"traverse", 2000000}, {"tostring", 30000}},
+        "each run: delivered bytes = valid / truncated / corrupted / random document in an exact-size heap block, parser struct and state array of exactly max_depth entries pre-filled with PRNG garbage, 1..60 calls over the whole public parser API with return values ignored (lookups only while structurally inside an object). oracle: no ASan/UBSan report, every returned span inside the delivered block, buffer unchanged. non-trivial = at least 3 calls returned true or an error class other than init rejection was reached. The batch also runs the traverse and tostring engines with this property as owner: a crash or an out-of-buffer span met in an adaptive traversal or under the to_string capacity sweep (reads) belongs to C01",
         {"ASan/UBSan detect the out-of-bounds accesses (exact-size heap blocks, no slack)", "sampling"});
     add("C09", "exploration", {{"sloppy", 300000}, {"capacity", 2500}}, {{"sloppy", 6000000}, {"capacity", 60000}},
         "parser: sloppy workload, latch monitor over the recorded history - after the first call that sets an error, every advancing call returns false, every getter is neutral, the flag stays set until init/reset/verify(print,to_string). writer: capacity sweep places the first failing write at every position, arbitrary further writes follow: all false, nothing stored, counter keeps matching the reference size. non-trivial = at least one call was made after an error had been latched",
         {"sampling"});
     add("C16", "exploration", {{"sloppy", 150000}, {"traverse", 60000}, {"nav", 60000}, {"capacity", 1500}, {"tostring", 400}, {"cppwrap", 1500}}, {{"sloppy", 5000000}, {"traverse", 2000000}, {"nav", 2000000}, {"capacity", 15000}, {"tostring", 15000}, {"cppwrap", 50000}},
-        "every API call of every run executes under a per-call budget of len+16 token callbacks (exceeding it aborts the call: deterministic liveness violation) and a 10 s CPU watchdog; per call: callbacks <= bytes advanced + 2; verify: callbacks <= len + 2. non-trivial = the run made at least 3 token callbacks",
+        "every API call of every run executes under a per-call budget of 2*len+16 token callbacks (exceeding it aborts the call: deterministic liveness violation) and a 10 s CPU watchdog; per call: tokens (callbacks minus re-reports of a BEGIN left in place) <= bytes advanced + 2, re-reports <= tokens + 1; verify: callbacks <= len + 2; a quarter of the runs install no callback and are covered by the watchdog alone. non-trivial = the run made at least 3 token callbacks",
         {"callback-free loops (writer calls, print / to_string formatting loops) are only seen by the CPU watchdog", "sampling"});
     add("C08", "exploration", {{"traverse", 500000}}, {{"traverse", 8000000}},
         "valid document, then 0-3 in-transit faults (truncate, flip/substitute, swap/dup/drop/insert, torn prefix, too-small max_depth); an adaptive complete traversal (enter/skip/lookup/early leave/get_raw/to_writer chosen by PRNG, seeing only the parser's answers) must end with all calls successful and error NONE iff binson_parser_verify on a fresh parser accepts the same bytes. non-trivial = a container was skipped, raw-extracted or left early",
